@@ -479,6 +479,16 @@ class World(object):
             return
         if act.get('sticky'):
             cb.armed[site] = act
+        if 'ctor_write' in act:
+            if st is not None and k is None and st.op.get('op') == 'new' and 'ctor_inner_flags' not in st.extra:
+                self.bump('fault_F8_write_during_construction')
+                try:
+                    obj.set_val(V.carrier(act['ctor_write']))
+                    st.extra['ctor_inner_flags'] = {f: bool(obj.status.get(f)) for f in ('overflow', 'underflow', 'inaccuracy')} \
+                        if isinstance(obj.status, dict) else {}
+                except Exception:
+                    st.extra['ctor_inner_flags'] = {}
+            return
         if act.get('unregister'):
             # a one-shot callback: removes itself from the object's list while being notified
             self.bump('fault_F7_unregister_fired')
@@ -892,6 +902,10 @@ class World(object):
             st.extra['cfg'] = -1
             self.bump('object_config_used')
         self.pending_owner = cbs
+        if op.get('ctor_write') is not None and cbs:
+            # fault F8 at construction time: the first callback given with callbacks= writes a value into the
+            # object the first time it is notified - i.e. from inside the constructor's own sizing store
+            cbs[0].armed['on_value_change'] = {'ctor_write': op['ctor_write']}
         try:
             if op.get('dtype') is not None:
                 x = Fxp(None if val is None else V.carrier(val), dtype=op['dtype'], **args, **kw)
@@ -1280,7 +1294,13 @@ class World(object):
             if self.template is not None or self.cfg_template is not None:
                 raise Skip('pow under a global template')
             a = self.ref(op['a'], lambda o: o.n_word <= 16 and np.asarray(o.val).dtype.kind in 'iu')
-            if 'val' not in op['b'] or op['b']['val'][0] != 'i' or not 0 <= op['b']['val'][1] <= 3:
+            bv_ = op['b'].get('val')
+            ok_ = bv_ is not None and (
+                (bv_[0] == 'i' and 0 <= bv_[1] <= 3) or
+                (bv_[0] in ('l', 't') and 0 < len(bv_[1]) <= 4 and all(e[0] == 'i' and 0 <= e[1] <= 3 for e in bv_[1])) or
+                (bv_[0] == 'a' and bv_[1] == 'int64' and len(bv_[2]) == 1 and 0 < len(bv_[3]) <= 4 and
+                 all(e[1] == 0 and 0 <= e[0] <= 3 for e in bv_[3])))
+            if not ok_:
                 raise Skip('pow exponent')
         else:
             a = self.ref(op['a'])
